@@ -178,7 +178,7 @@ def _plan(tier):
         Lp += [(4,), (2, 2), (1, 3), (3, 1), (1, 1, 1), (1, 1, 2)]
     V = [("n2b1v4",), ("n2b2v3",), ("n3b1v3",), ("n3b2v2",)]
     if T:
-        V += [("n2b2v4",), ("n2b3v2",), ("n3b3v2x",)]
+        V += [("n2b2v4",), ("n2b3v2",)]
     return P, H, V, Lp
 
 
@@ -187,23 +187,24 @@ def shards(tier, seed):
     out = [("B",)]
     for lens in P:
         n = len(layouts(lens))
-        step = 3000 if tier == "quick" else 6000
+        step = 3000 if tier == "quick" else 12000
         for i in range(0, n, step):
             out.append(("P", lens, i, min(i + step, n)))
     for lens in H:
         n = len(layouts(lens))
-        step = 700 if tier == "quick" else 1500
+        step = 700 if tier == "quick" else 4000
         for i in range(0, n, step):
             out.append(("H", lens, i, min(i + step, n)))
     for (name,) in V:
         tot = v_space(name, seed)[3]
-        step = 600
+        step = 600 if tier == "quick" else 2000
         for i in range(0, tot, step):
             out.append(("V", name, i, min(i + step, tot)))
     for lens in Lp:
         n = len(layouts(lens))
         p = sum(lens)
-        step = {1: 50, 2: 8, 3: (12 if tier == "quick" else 4), 4: 2}[p]
+        per_layout = (p - len(lens) + 1) * len(l_genotypes(p, seed, tier)) * len(l_effects(p, seed, tier))
+        step = max(1, (2500 if tier == "quick" else 6000) // per_layout)
         for i in range(0, n, step):
             out.append(("L", lens, i, min(i + step, n)))
     return out
@@ -712,6 +713,7 @@ def l_parts(ctx, lo, total, labels, rn, G, u, pg, gp, variant, slice0):
                         (OptimalHaploidValueBinarySelectionProblem, "int64")):
             lower = numpy.zeros(nx, dtype=dt)
             upper = numpy.ones(nx, dtype=dt)
+            ctx.flag("L:" + cls.__name__)
             with POISON:
                 pr = cls.from_pgmat_gpmod(nparent=d, nhaploblk=total, unique_parents=unique, pgmat=pg, gpmod=gp, ndecn=nx,
                                           decn_space=numpy.stack([lower, upper]), decn_space_lower=lower, decn_space_upper=upper, nobj=T)
@@ -724,7 +726,6 @@ def l_parts(ctx, lo, total, labels, rn, G, u, pg, gp, variant, slice0):
             ctx.transitions += 1
             _vec_check(cls.__name__ + ".latentfn:value", got, [-(exp_rows[0][t] + exp_rows[nx - 1][t]) / 2 for t in range(T)],
                        desc + f" contributions {x.tolist()}")
-            ctx.flag("L:" + cls.__name__)
 
     return [part_ohv, part_opv, part_gb] + ([part_enc] if slice0 else [])
 
@@ -808,9 +809,12 @@ def finalize(ctx, tier, seed):
     assert c.get("P:bin-cases-with-an-empty-equal-width-bin", 0) > 100
     assert c.get("P:bin-cases-with-a-marker-on-an-interior-boundary", 0) > 100
     assert c.get("H:(layout,total)-with-an-empty-equal-width-bin", 0) > 50
-    for s in ("core.haplomat", "OptimalHaploidValueSelectionProblem", "OptimalPopulationValueSelectionProblem", "GenotypeBuilderSelectionProblem"):
-        assert c.get(f"H:calls:{s}", 0) > 500, s
-    assert len(ctx.outcomes) > 200, len(ctx.outcomes)
+    for s_ in ("core.haplomat", "OptimalHaploidValueSelectionProblem", "OptimalPopulationValueSelectionProblem", "GenotypeBuilderSelectionProblem"):
+        assert c.get(f"H:calls:{s_}", 0) > 500, s_
+    from ..core import load_known, match_known
+    known = load_known()
+    unknown = [sg for sg in ctx.violations if not match_known(ID, sg, known)]
+    assert len(ctx.outcomes) > 200 or unknown, len(ctx.outcomes)    # (observed outcomes depend on the library)
     # exact size of the partition space: nothing silently skipped
     nlay = lambda lens: math.prod(math.comb(L + NGRID - 1, NGRID - 1) for L in lens)
     assert c.get("B:cases", 0) == sum(2 * 3 ** (L - 1) for L in range(1, 7)), c.get("B:cases")
